@@ -248,6 +248,7 @@ func (l *EventLoop) RunUntil(deadline time.Time, quiet func() bool) (reached boo
 // and error retries trigger reconciles. The fixpoint must be reached by a virtual deadline.
 func (w *World) ConvergeE(ns, name string, pendingChanges int) ConvergeResult {
 	w.Coop = true
+	w.phaseStart = w.Now()
 	w.tracef("--- event-driven convergence phase for %s/%s ---", ns, name)
 	w.forgetFailedPodBackoff(ns, name)
 	res := ConvergeResult{Resolution: "none"}
